@@ -4,8 +4,11 @@ import (
 	"context"
 	"errors"
 	"fmt"
+	"sort"
 	"strings"
 	"time"
+
+	"github.com/goptics/varmq/internal/queues"
 
 	varmq "github.com/goptics/varmq"
 	rt "github.com/goptics/varmq/internal/verifrt"
@@ -35,6 +38,8 @@ type Program struct {
 	CrashAt  int      `json:"crashat,omitempty"` // cut the execution after this many adapter calls and recover (0 = never)
 	Tag      string   `json:"tag,omitempty"`     // promise of the generator: "seq" | "ordered"
 	Consumers int     `json:"consumers,omitempty"` // number of workers consuming the shared distributed adapter (default 1)
+	Steps    int      `json:"steps,omitempty"`    // scheduler step budget for this program (0 = default)
+	Caps     []int    `json:"caps,omitempty"`     // [initial, max] FIFO segment capacities for this execution (default: the library's)
 }
 
 type Fault struct {
@@ -122,7 +127,17 @@ func (e *env) body(j varmq.Job[int]) (int, error) {
 	case 1:
 		return 0, fmt.Errorf("fail-%d", k)
 	case 2:
-		panic(fmt.Sprintf("panic-%d", k))
+		// panic values of different dynamic types: string, error, int, struct
+		switch k % 4 {
+		case 0:
+			panic(fmt.Sprintf("panic-%d", k))
+		case 1:
+			panic(fmt.Errorf("panic-%d", k))
+		case 2:
+			panic(1000 + k)
+		default:
+			panic(struct{ K int }{k})
+		}
 	}
 	return k*10 + 7, nil
 }
@@ -674,6 +689,17 @@ func (e *env) final(done []bool) {
 	for i, q := range e.qs {
 		rt.Log("F", "queue", fmt.Sprintf("%d %d", i, q.NumPending()))
 	}
+	// status of every job handle at rest
+	ks := make([]int, 0, len(e.jobs))
+	for k := range e.jobs {
+		ks = append(ks, k)
+	}
+	sort.Ints(ks)
+	for _, k := range ks {
+		if j := e.jobs[k]; j != nil {
+			rt.Log("F", "job", fmt.Sprintf("%d %s", k, j.Status()))
+		}
+	}
 }
 
 func runProgram(p *Program, cfg rt.Config) *rt.Result {
@@ -701,6 +727,10 @@ func runProgram(p *Program, cfg rt.Config) *rt.Result {
 }
 
 func runPhase(p *Program, cfg rt.Config, shared *[]*adapter, first bool) *rt.Result {
+	if len(p.Caps) == 2 {
+		oi, om := queues.VerifSetCaps(p.Caps[0], p.Caps[1])
+		defer queues.VerifSetCaps(oi, om)
+	}
 	return rt.Run(cfg, func() {
 		e := newEnv(p, shared, 0)
 		e.setup()
